@@ -26,7 +26,7 @@ Init ==
        /\ (AllowKnownClass \/ ~Known(tm, dd))
        /\ t = T(tm[1], tm[2], tm[3], dd[1], dd[2], dd[3], dd[4])
        /\ p0 = MkP(m, DayNumCal(m, st[1], st[2], st[3]), s)
-  /\ day = LocalDay(m, p0) /\ sod = p0.sod /\ phase = "s" /\ steps = 0
+  /\ day = LocalDay(m, p0) /\ sod = p0.sod /\ later = FALSE /\ phase = "s" /\ steps = 0
 Spec == Init /\ [][Next]_vars
 EmitGen == steps = 0 => PrintT(<<"GEN", ToJson(<<m, t.hh, t.mi, t.ss, t.dom, t.doy, t.dow, t.woy, p0.y, p0.a, p0.b, p0.sod>>)>>)
 OnlyInit == steps = 0
